@@ -58,7 +58,7 @@ func ZeroValueOf(typeExpr ast.Expr, typ types.Type) ast.Expr {
 		case info&types.IsBoolean != 0:
 			zv = &ast.Ident{Name: "false"}
 		}
-		if isDefaultLiteralType(typ) {
+		if zv == nil || isDefaultLiteralType(typ) {
 			return zv
 		}
 		return &ast.CallExpr{
